@@ -1,58 +1,78 @@
 ----------------------------- MODULE RobinHoodMC -----------------------------
-(* (1) Bounded exhaustive check that RobinHood refines HashMap for every hash function           *)
-(*     Classes -> Codes, every initial size in InitSizes and every operation sequence of up to   *)
-(*     MaxSteps calls (ghost variables hidden by VIEW; the refinement is an action property, so  *)
-(*     TLC evaluates it on every transition).                                                    *)
+(* (1) Exhaustive check that RobinHood refines HashMap for every hash function Classes -> Codes,  *)
+(*     every initial size in InitSizes and every operation sequence (the complete reachable      *)
+(*     state space when MaxSteps = 0, else sequences of up to MaxSteps calls).  Ghost variables  *)
+(*     are hidden by VIEW; the refinement is an action property, so TLC evaluates it on every    *)
+(*     transition.  Full = FALSE restricts the calls to those with their own slot-array logic    *)
+(*     (put, remove, iterator, foreach); create / find / remove_element / clear / clean_up reuse *)
+(*     the same functions and are explored in the configurations with Full = TRUE.               *)
 (* (2) Behaviour generation: simulation with a history; each behaviour is printed as a script    *)
 (*     (hash assignment + initial size + calls) that is replayed on the real aws_hash_table.     *)
 EXTENDS RobinHood, Json
 
-CONSTANTS Codes, InitSizes, Ptrs, Vals, MaxSteps, GenDepth, FlagScripts, DestructorModes
+CONSTANTS Codes, SortedHash, Full, InitSizes, Ptrs, Vals, SetVals, OutModes, MaxSteps, GenDepth, FlagScripts, DestructorModes
 VARIABLES hist
 
-mcvars == <<hash, alive, hasK, hasV, size, slots, count, iter, op, vis, start, hist>>
+mcvars == <<hash, alive, hasK, hasV, size, slots, count, iter, op, vis, start, dup, hist>>
 Rec == hist' = IF GenDepth > 0 THEN Append(hist, op') ELSE hist
 G == GenDepth > 0 => Len(hist) < GenDepth
 PtrsOf(c) == IF c = 0 THEN {0} ELSE Ptrs
+(* generation only: a uniformly random walk empties the table too often to build clusters, so the wholesale *)
+(* operations are offered only now and then                                                               *)
+Rare == GenDepth > 0 => (count >= 4 \/ Len(hist) % 7 = 0)
+(* ... and an iteration in progress is mostly continued (next / delete) rather than abandoned *)
+Free == GenDepth > 0 => (~iter.on \/ iter.st = "done" \/ Len(hist) % 6 = 0)
 
 MCInit ==
     /\ hash \in [Classes \ {0} -> Codes]
+    \* classes are interchangeable (every call is offered for every class), so for the exhaustive check it is
+    \* enough to take one hash function per multiset of codes: the non-decreasing ones
+    /\ SortedHash => \A c, d \in Classes \ {0} : c < d => hash[c] <= hash[d]
     /\ \E sz \in InitSizes, d \in DestructorModes :
           /\ alive = TRUE /\ hasK = d /\ hasV = d
           /\ size = sz /\ slots = EmptySlots(sz) /\ count = 0
           /\ op = [name |-> "Init", isz |-> sz, k |-> d, v |-> d]
-    /\ iter = NoIt /\ vis = <<>> /\ start = {} /\ hist = <<>>
+    /\ iter = NoIt /\ vis = {} /\ start = {} /\ dup = FALSE /\ hist = IF GenDepth > 0 THEN <<op>> ELSE <<>>
 
-MCReInit == G /\ (\E sz \in InitSizes, d \in DestructorModes : RInit(sz, d, d)) /\ Rec
-MCPut == G /\ (\E c \in Classes : \E p \in PtrsOf(c), v \in Vals : RPut(c, p, v)) /\ Rec
-MCCreate == G /\ (\E c \in Classes : \E p \in PtrsOf(c), sv \in {-1} \cup Vals : RCreate(c, p, sv)) /\ Rec
-MCFind == G /\ (\E c \in Classes : RFind(c)) /\ Rec
-MCRemove == G /\ (\E c \in Classes, w \in BOOLEAN : RRemove(c, w)) /\ Rec
-MCRemoveElement == G /\ (\E c \in Classes : RRemoveElement(c)) /\ Rec
-MCClear == G /\ RClear /\ Rec
-MCCleanUp == G /\ alive /\ RCleanUp /\ Rec
-MCIterBegin == G /\ RIterBegin /\ Rec
+MCReInit == G /\ Full /\ (\E sz \in InitSizes, d \in DestructorModes : RInit(sz, d, d)) /\ Rec
+MCPut == G /\ Free /\ (\E c \in Classes : \E p \in PtrsOf(c), v \in Vals : RPut(c, p, v)) /\ ~op'.grew /\ Rec
+MCPutGrow == G /\ Free /\ (\E c \in Classes : \E p \in PtrsOf(c), v \in Vals : RPut(c, p, v)) /\ op'.grew /\ Rec
+MCCreate == G /\ Full /\ Free /\ (\E c \in Classes : \E p \in PtrsOf(c), sv \in SetVals : RCreate(c, p, sv)) /\ Rec
+MCFind == G /\ Full /\ Free /\ (\E c \in Classes : RFind(c)) /\ Rec
+MCRemove == G /\ Free /\ (\E c \in Classes, w \in OutModes : RRemove(c, w)) /\ ~op'.wrapped /\ Rec
+MCRemoveWrap == G /\ Free /\ (\E c \in Classes, w \in OutModes : RRemove(c, w)) /\ op'.wrapped /\ Rec
+MCRemoveElement == G /\ Full /\ Free /\ (\E c \in Classes : RRemoveElement(c)) /\ Rec
+MCClear == G /\ Full /\ Rare /\ RClear /\ Rec
+MCCleanUp == G /\ Full /\ Rare /\ alive /\ RCleanUp /\ Rec
+MCIterBegin == G /\ Free /\ RIterBegin /\ Rec
 MCIterNext == G /\ RIterNext /\ Rec
-MCIterDelete == G /\ (\E d \in BOOLEAN : RIterDelete(d)) /\ Rec
-MCForEach == G /\ (\E fl \in FlagScripts : RForEach(fl)) /\ Rec
+MCIterDelete == G /\ (\E d \in OutModes : RIterDelete(~d)) /\ ~op'.shrunk /\ ~op'.stepback /\ Rec
+MCIterDeleteShrink == G /\ (\E d \in OutModes : RIterDelete(~d)) /\ op'.shrunk /\ Rec           \* limit-- (wrap case)
+MCIterDeleteSlot0 == G /\ (\E d \in OutModes : RIterDelete(~d)) /\ ~op'.shrunk /\ op'.stepback /\ Rec  \* slot 0 -> SIZE_MAX
+MCForEach == G /\ Rare /\ (\E fl \in FlagScripts : RForEach(fl)) /\ Rec
 
-MCNext == MCReInit \/ MCPut \/ MCCreate \/ MCFind \/ MCRemove \/ MCRemoveElement \/ MCClear \/ MCCleanUp
-          \/ MCIterBegin \/ MCIterNext \/ MCIterDelete \/ MCForEach
+MCNext == MCReInit \/ MCPut \/ MCPutGrow \/ MCCreate \/ MCFind \/ MCRemove \/ MCRemoveWrap \/ MCRemoveElement \/ MCClear
+          \/ MCCleanUp \/ MCIterBegin \/ MCIterNext \/ MCIterDelete \/ MCIterDeleteShrink \/ MCIterDeleteSlot0 \/ MCForEach
 MCSpec == MCInit /\ [][MCNext]_mcvars
 
 (* everything but the ghosts *)
-RealState == <<hash, alive, hasK, hasV, size, slots, count, iter, vis, start>>
-Bound == TLCGet("level") <= MaxSteps + 1
+RealState == <<hash, alive, hasK, hasV, size, slots, count, iter, vis, start, dup>>
+Bound == MaxSteps = 0 \/ TLCGet("level") <= MaxSteps + 1
 
 (* RobinHood => HashMap: every step is a step of the abstract map with the same reported results *)
 Refines == [][HMStep(op')]_mcvars
 
 FS0 == {<<>>}
-FSSmall == {<<>>, <<3>>, <<1, 3>>, <<3, 3>>, <<3, 0>>, <<1, 4>>, <<3, 3, 3>>, <<1, 3, 1, 3>>, <<2>>}
+FSLayout == {<<>>, <<3, 3, 3, 3, 3>>, <<1, 3>>, <<3, 0>>}
+FSSmall == {<<>>, <<3>>, <<1, 3>>, <<3, 3, 3, 3, 3>>, <<3, 0>>, <<1, 4>>}
 FSGen == {<<>>, <<3>>, <<1, 3>>, <<3, 3>>, <<3, 1, 3>>, <<1, 1, 3>>, <<3, 3, 3, 3>>, <<1, 3, 1, 3>>, <<3, 3, 0>>, <<3, 7>>,
           <<1, 1, 4>>, <<2>>, <<3, 2>>, <<1, 3, 3, 3, 3, 3>>, <<3, 3, 3, 3, 3, 3, 3, 3>>, <<0>>}
 BothModes == {TRUE, FALSE}
 OnlyDestructors == {TRUE}
+OutOnly == {FALSE}
+OutBoth == {TRUE, FALSE}
+NoSet == {-1}
+SetSome == {-1, 2}
 
 Emit == (GenDepth > 0 /\ Len(hist) = GenDepth) =>
             PrintT(<<"SCRIPT", ToJson([hash |-> hash, ops |-> hist])>>)
